@@ -56,6 +56,17 @@ pub fn replay(id: &str, path: &str) -> i32 {
         eprintln!("MACHINERY cannot parse replay {}", path);
         return 2;
     };
+    if v["kind"].as_str() == Some("unguarded-panic") || v["kind"].as_str() == Some("fault") {
+        // the case is located by work item only: the deterministic sweep is run again (it reports
+        // the same violation and exits 1 if the library still crashes there)
+        let _ = crate::RUNNING_PROP.set(id.to_string());
+        crate::watchdog::start(id);
+        let code = run(id, "quick");
+        if code == 0 {
+            println!("replay: property {} holds on this case", id);
+        }
+        return code;
+    }
     // Determinism gate: the plain driver runs the case twice from fresh objects.
     let a = replay_one(id, &v);
     let b = replay_one(id, &v);
